@@ -52,3 +52,29 @@ ITEMS = [
                   ('fresh', _FRESH)],
          canaries=['C20:every_option_reaches_the_field_the_emitter_reads_and_nothing_else_is_set']),
 ]
+# ---- the scalar entry points of the emitter (C12): which token is written for a boolean, an integer, None and unit.  The helpers around the
+# token (space after a colon, anchor prefix, indentation, end of scalar) are under contract in unit `quoting`; here they are bare declarations. ----
+_SER = 'impl Serializer for &mut YamlSerializer/'
+def _helper(name, sig_extra=''):
+    return dict(src=SR, path='impl YamlSerializer/fn ' + name, trusted=True, props=[],
+                rewrites=[(r'-> Result<\(\)>', '-> Result<(), SerError>', 1, 'R6')])
+def _scalar_entry(name, sig_re, new_sig, token_stmt_re, label, token_spec, extra_rw=()):
+    return dict(src=SR, path=_SER + 'fn ' + name, id='YamlSerializer::' + name, impl_header="impl<'a> YamlSerializer<'a>", props=['C12', 'C01'],
+         pre_rewrites=[(sig_re, new_sig, 1, 'R9')],
+         rewrites=list(extra_rw),
+         proofs=[dict(before_re=token_stmt_re, ghost=True, text='let ghost t_before = self.out.text();'),
+                 dict(after_re=token_stmt_re, label=label, text='assert(self.out.text() =~= t_before + %s);' % token_spec)],
+         ensures=[('writes_one_scalar', 'true')])
+ITEMS += [_helper('write_space_if_pending'), _helper('write_scalar_prefix_if_anchor'), _helper('write_indent'), _helper('write_end_of_scalar'),
+    _scalar_entry('serialize_bool', r'fn serialize_bool\(self, v: bool\) -> Result<\(\)>', 'fn serialize_bool(&mut self, v: bool) -> Result<(), SerError>',
+                  r'self\.out\.write_str\(if v \{ "[^"]*" \} else \{ "[^"]*" \}\)\?;', 'C12:a_boolean_is_written_as_the_core_schema_word_true_or_false',
+                  '(if v { "true"@ } else { "false"@ })'),
+    _scalar_entry('serialize_none', r'fn serialize_none\(self\) -> Result<\(\)>', 'fn serialize_none(&mut self) -> Result<(), SerError>',
+                  r'self\.out\.write_str\("[^"]*"\)\?;', 'C12:none_is_written_as_a_plain_word_that_reads_back_as_null', 'null_word()'),
+    _scalar_entry('serialize_unit', r'fn serialize_unit\(self\) -> Result<\(\)>', 'fn serialize_unit(&mut self) -> Result<(), SerError>',
+                  r'self\.out\.write_str\("[^"]*"\)\?;', 'C12:unit_is_written_as_a_plain_word_that_reads_back_as_null', 'null_word()'),
+]
+for _n, _t in (('serialize_i64', 'i64'), ('serialize_u64', 'u64'), ('serialize_i128', 'i128'), ('serialize_u128', 'u128')):
+    ITEMS.append(_scalar_entry(_n, r'fn %s\(self, v: %s\) -> Result<\(\)>' % (_n, _t), 'fn %s(&mut self, v: %s) -> Result<(), SerError>' % (_n, _t),
+                  r'self\.out\.write_decimal\(Ghost\(v as int\)\)\?;', 'C12:an_integer_is_written_as_its_decimal_digits_and_nothing_else', 'decimal_text(v as int)',
+                  extra_rw=[(r'write!\(self\.out, "\{\}", v\)\?;', 'self.out.write_decimal(Ghost(v as int))?;', 1, 'R12')]))
